@@ -2,7 +2,7 @@
 Utilities and classes related to formatting a Feedback Message.
 """
 from pedal.core.location import Location
-from pedal.utilities.text import inject_line, render_table
+from pedal.utilities.text import inject_line, render_table, safe_repr
 
 
 def chomp_spec(format_spec, word):
@@ -52,7 +52,11 @@ class FeedbackFieldWrapper:
         return str(self.value)
 
     def __format__(self, format_spec):
-        value = str(self.value)
+        try:
+            value = str(self.value)
+        except Exception:
+            # A value that cannot describe itself must not lose the feedback
+            value = safe_repr(self.value)
         for formatter_name in self.formatter.available:
             if format_spec.endswith(formatter_name):
                 format_spec = chomp_spec(format_spec, formatter_name)
